@@ -42,7 +42,9 @@ def spec_orders(tier, wd):
 
 
 C = lambda s, cli=False: {"c": "connect", "s": s, "cli": cli}      # noqa: E731
-Q = lambda s, cls="query": {"c": "cmd", "s": s, "cls": cls}         # noqa: E731
+CN = lambda s: {"c": "connect", "s": s, "nohandshake": True}        # noqa: E731
+HS = lambda s: {"c": "handshake", "s": s}                           # noqa: E731
+Q = lambda s, cls="query", v=None: dict({"c": "cmd", "s": s, "cls": cls}, **({} if v is None else {"v": v}))   # noqa: E731
 D = lambda s, how="close": {"c": "disconnect", "s": s, "how": how}  # noqa: E731
 STOP = {"c": "stop"}
 DIRECTED = [
@@ -56,6 +58,12 @@ DIRECTED = [
     [C(0), Q(0, "badarg"), Q(0, "unknown"), Q(0), D(0)],   # no stop: the server keeps serving
     [C(0), Q(0), {"c": "cancelall"}],                      # the application shuts down with a client connected
     [C(0), D(0), STOP, {"c": "restart"}, C(1), Q(1), D(1), STOP],   # stop, then the same server object serves again
+    # handshakes that overlap: two raw clients connect, then send their handshakes in either order; a CLI client in between
+    [CN(0), CN(1), HS(0), HS(1), Q(0, v=0), Q(1, v=3), D(0), D(1), STOP],
+    [CN(0), CN(1), HS(1), HS(0), Q(0, v=0), Q(1, v=0), Q(0, "mutate"), D(1), D(0), STOP],
+    [CN(0), C(1, True), HS(0), Q(0, v=2), Q(1, v=2), D(0), D(1, "exit"), STOP],
+    # every concrete query line through a raw client and through the bundled CLI client (quotes, a 12 kB reply ...)
+    [C(0), C(1, True)] + [Q(s, v=v) for v in range(7) for s in (0, 1)] + [D(0), D(1, "exit"), STOP],
 ]
 
 
